@@ -959,18 +959,17 @@ func teardownUnderFinalizerRule(c *Ctx) {
 			if fn.Parent() != nil {
 				continue
 			}
-			// functions that also free the cache
-			frees := false
-			for _, cc := range callsIn(fn) {
-				if isCallTo(cc.Common, pkgControllers+".FreeCacheAndRemoveFinalizer") {
-					frees = true
-				}
-			}
-			if !frees {
-				continue
-			}
 			for _, cc := range callsIn(fn) {
 				if !cc.Common.IsInvoke() || cc.Common.Method.Name() != "Teardown" {
+					continue
+				}
+				// the controller's wired teardown handler: a field of the receiver
+				u, isLoad := cc.Common.Value.(*ssa.UnOp)
+				if !isLoad {
+					continue
+				}
+				fa, isFA := u.X.(*ssa.FieldAddr)
+				if !isFA || len(fn.Params) == 0 || fa.X != ssa.Value(fn.Params[0]) || !strings.Contains(types.TypeString(fn.Params[0].Type(), nil), "Controller") {
 					continue
 				}
 				n++
